@@ -156,11 +156,17 @@ class Gen:
         """shift / rotate count, same width as the value (strict typing); small constants most of the time"""
         r = self.rng
         if r.random() < 0.6: return ('I', 0, w, r.choice([0, 1, 2, 3, 4, 7, 8, w - 1, w, w + 1, 31, 32, 33]) % (1 << w))
-        return self.expr(w, depth - 1)
+        # a count that cannot fold to a huge constant (Python and Z.shiftl both materialise 2^count)
+        i = self.ident(w)
+        c = r.random()
+        if c < 0.4: return i
+        if c < 0.7 and w >= 8: return ('O', '&', [i, ('I', 0, w, 0x1f)])
+        return ('O', '+', [i, ('I', 0, w, r.choice([1, 2]) % (1 << w))])
     def expr(self, w, depth):
         r = self.rng
         if depth <= 0 or r.random() < 0.15: return self.leaf(w)
         kinds = ['assoc'] * 5 + ['neg', 'sub', 'shift', 'rot', 'eq', 'cond', 'cond', 'slice', 'slice', 'not', 'parity']
+        if getattr(self, 'no_shift', False): kinds = [k for k in kinds if k not in ('shift', 'rot')]
         if w >= 16: kinds += ['compose'] * 3
         if w >= 8 and self.allow_mem: kinds += ['mem'] * 2
         if self.ops_extra: kinds += ['extra']
